@@ -24,7 +24,9 @@ package codec
 // the protocol, not from this code); wire_limits(m) are the protocol's field-size limits;
 // wire_ok(m) adds the canonical form under which the layout is injective; wire_eq compares the
 // wire-visible fields. The four shared base codecs are verified on their own and expanded inline
-// where a derived codec delegates to them.
+// where a derived codec delegates to them. Decode is specified on the body followed by arbitrary
+// trailing bytes (rest): it must return the same message and leave exactly rest unread, which is
+// what makes the frame reader's result independent of bytes that follow the frame (C13).
 
 //@ func (*GlobalBeginRequestCodec).Encode
 //@   prop C12
@@ -37,10 +39,12 @@ package codec
 //@ func (*GlobalBeginRequestCodec).Decode
 //@   prop C12
 //@   let m := some(message.GlobalBeginRequest)
-//@   requires self != nil && wire_ok(m) && in == wire(m)
+//@   let rest := some(string, "rest")
+//@   requires self != nil && wire_ok(m) && in == wire(m) + rest
 //@   aux wirefields := wirefields(m)
 //@   ensures typed: isT(result, message.GlobalBeginRequest)
 //@   ensures inverse: wire_eq(result.(message.GlobalBeginRequest), m)
+//@   at return: assert consumed: content(buf) == rest
 //@   nopanic
 //@ func (*GlobalBeginRequestCodec).GetMessageType
 //@   prop C12
@@ -59,10 +63,12 @@ package codec
 //@ func (*GlobalBeginResponseCodec).Decode
 //@   prop C12
 //@   let m := some(message.GlobalBeginResponse)
-//@   requires self != nil && wire_ok(m) && in == wire(m)
+//@   let rest := some(string, "rest")
+//@   requires self != nil && wire_ok(m) && in == wire(m) + rest
 //@   aux wirefields := wirefields(m)
 //@   ensures typed: isT(result, message.GlobalBeginResponse)
 //@   ensures inverse: wire_eq(result.(message.GlobalBeginResponse), m)
+//@   at return: assert consumed: content(buf) == rest
 //@   nopanic
 //@ func (*GlobalBeginResponseCodec).GetMessageType
 //@   prop C12
@@ -81,10 +87,12 @@ package codec
 //@ func (*BranchCommitRequestCodec).Decode
 //@   prop C12
 //@   let m := some(message.BranchCommitRequest)
-//@   requires self != nil && wire_ok(m) && in == wire(m)
+//@   let rest := some(string, "rest")
+//@   requires self != nil && wire_ok(m) && in == wire(m) + rest
 //@   aux wirefields := wirefields(m)
 //@   ensures typed: isT(result, message.BranchCommitRequest)
 //@   ensures inverse: wire_eq(result.(message.BranchCommitRequest), m)
+//@   at return: assert consumed: content(buf) == rest
 //@   nopanic
 //@ func (*BranchCommitRequestCodec).GetMessageType
 //@   prop C12
@@ -103,10 +111,12 @@ package codec
 //@ func (*BranchCommitResponseCodec).Decode
 //@   prop C12
 //@   let m := some(message.BranchCommitResponse)
-//@   requires self != nil && wire_ok(m) && in == wire(m)
+//@   let rest := some(string, "rest")
+//@   requires self != nil && wire_ok(m) && in == wire(m) + rest
 //@   aux wirefields := wirefields(m)
 //@   ensures typed: isT(result, message.BranchCommitResponse)
 //@   ensures inverse: wire_eq(result.(message.BranchCommitResponse), m)
+//@   at return: assert consumed: content(buf) == rest
 //@   nopanic
 //@ func (*BranchCommitResponseCodec).GetMessageType
 //@   prop C12
@@ -125,10 +135,12 @@ package codec
 //@ func (*BranchRollbackRequestCodec).Decode
 //@   prop C12
 //@   let m := some(message.BranchRollbackRequest)
-//@   requires self != nil && wire_ok(m) && in == wire(m)
+//@   let rest := some(string, "rest")
+//@   requires self != nil && wire_ok(m) && in == wire(m) + rest
 //@   aux wirefields := wirefields(m)
 //@   ensures typed: isT(result, message.BranchRollbackRequest)
 //@   ensures inverse: wire_eq(result.(message.BranchRollbackRequest), m)
+//@   at return: assert consumed: content(buf) == rest
 //@   nopanic
 //@ func (*BranchRollbackRequestCodec).GetMessageType
 //@   prop C12
@@ -147,10 +159,12 @@ package codec
 //@ func (*BranchRollbackResponseCodec).Decode
 //@   prop C12
 //@   let m := some(message.BranchRollbackResponse)
-//@   requires self != nil && wire_ok(m) && in == wire(m)
+//@   let rest := some(string, "rest")
+//@   requires self != nil && wire_ok(m) && in == wire(m) + rest
 //@   aux wirefields := wirefields(m)
 //@   ensures typed: isT(result, message.BranchRollbackResponse)
 //@   ensures inverse: wire_eq(result.(message.BranchRollbackResponse), m)
+//@   at return: assert consumed: content(buf) == rest
 //@   nopanic
 //@ func (*BranchRollbackResponseCodec).GetMessageType
 //@   prop C12
@@ -169,7 +183,8 @@ package codec
 //@ func (*GlobalCommitRequestCodec).Decode
 //@   prop C12
 //@   let m := some(message.GlobalCommitRequest)
-//@   requires self != nil && wire_ok(m) && in == wire(m)
+//@   let rest := some(string, "rest")
+//@   requires self != nil && wire_ok(m) && in == wire(m) + rest
 //@   aux wirefields := wirefields(m)
 //@   ensures typed: isT(result, message.GlobalCommitRequest)
 //@   ensures inverse: wire_eq(result.(message.GlobalCommitRequest), m)
@@ -191,7 +206,8 @@ package codec
 //@ func (*GlobalCommitResponseCodec).Decode
 //@   prop C12
 //@   let m := some(message.GlobalCommitResponse)
-//@   requires self != nil && wire_ok(m) && in == wire(m)
+//@   let rest := some(string, "rest")
+//@   requires self != nil && wire_ok(m) && in == wire(m) + rest
 //@   aux wirefields := wirefields(m)
 //@   ensures typed: isT(result, message.GlobalCommitResponse)
 //@   ensures inverse: wire_eq(result.(message.GlobalCommitResponse), m)
@@ -213,7 +229,8 @@ package codec
 //@ func (*GlobalRollbackRequestCodec).Decode
 //@   prop C12
 //@   let m := some(message.GlobalRollbackRequest)
-//@   requires self != nil && wire_ok(m) && in == wire(m)
+//@   let rest := some(string, "rest")
+//@   requires self != nil && wire_ok(m) && in == wire(m) + rest
 //@   aux wirefields := wirefields(m)
 //@   ensures typed: isT(result, message.GlobalRollbackRequest)
 //@   ensures inverse: wire_eq(result.(message.GlobalRollbackRequest), m)
@@ -235,7 +252,8 @@ package codec
 //@ func (*GlobalRollbackResponseCodec).Decode
 //@   prop C12
 //@   let m := some(message.GlobalRollbackResponse)
-//@   requires self != nil && wire_ok(m) && in == wire(m)
+//@   let rest := some(string, "rest")
+//@   requires self != nil && wire_ok(m) && in == wire(m) + rest
 //@   aux wirefields := wirefields(m)
 //@   ensures typed: isT(result, message.GlobalRollbackResponse)
 //@   ensures inverse: wire_eq(result.(message.GlobalRollbackResponse), m)
@@ -257,10 +275,12 @@ package codec
 //@ func (*BranchRegisterRequestCodec).Decode
 //@   prop C12
 //@   let m := some(message.BranchRegisterRequest)
-//@   requires self != nil && wire_ok(m) && in == wire(m)
+//@   let rest := some(string, "rest")
+//@   requires self != nil && wire_ok(m) && in == wire(m) + rest
 //@   aux wirefields := wirefields(m)
 //@   ensures typed: isT(result, message.BranchRegisterRequest)
 //@   ensures inverse: wire_eq(result.(message.BranchRegisterRequest), m)
+//@   at return: assert consumed: content(buf) == rest
 //@   nopanic
 //@ func (*BranchRegisterRequestCodec).GetMessageType
 //@   prop C12
@@ -279,10 +299,12 @@ package codec
 //@ func (*BranchRegisterResponseCodec).Decode
 //@   prop C12
 //@   let m := some(message.BranchRegisterResponse)
-//@   requires self != nil && wire_ok(m) && in == wire(m)
+//@   let rest := some(string, "rest")
+//@   requires self != nil && wire_ok(m) && in == wire(m) + rest
 //@   aux wirefields := wirefields(m)
 //@   ensures typed: isT(result, message.BranchRegisterResponse)
 //@   ensures inverse: wire_eq(result.(message.BranchRegisterResponse), m)
+//@   at return: assert consumed: content(buf) == rest
 //@   nopanic
 //@ func (*BranchRegisterResponseCodec).GetMessageType
 //@   prop C12
@@ -301,10 +323,12 @@ package codec
 //@ func (*BranchReportRequestCodec).Decode
 //@   prop C12
 //@   let m := some(message.BranchReportRequest)
-//@   requires self != nil && wire_ok(m) && in == wire(m)
+//@   let rest := some(string, "rest")
+//@   requires self != nil && wire_ok(m) && in == wire(m) + rest
 //@   aux wirefields := wirefields(m)
 //@   ensures typed: isT(result, message.BranchReportRequest)
 //@   ensures inverse: wire_eq(result.(message.BranchReportRequest), m)
+//@   at return: assert consumed: content(buf) == rest
 //@   nopanic
 //@ func (*BranchReportRequestCodec).GetMessageType
 //@   prop C12
@@ -323,10 +347,12 @@ package codec
 //@ func (*BranchReportResponseCodec).Decode
 //@   prop C12
 //@   let m := some(message.BranchReportResponse)
-//@   requires self != nil && wire_ok(m) && in == wire(m)
+//@   let rest := some(string, "rest")
+//@   requires self != nil && wire_ok(m) && in == wire(m) + rest
 //@   aux wirefields := wirefields(m)
 //@   ensures typed: isT(result, message.BranchReportResponse)
 //@   ensures inverse: wire_eq(result.(message.BranchReportResponse), m)
+//@   at return: assert consumed: content(buf) == rest
 //@   nopanic
 //@ func (*BranchReportResponseCodec).GetMessageType
 //@   prop C12
@@ -345,7 +371,8 @@ package codec
 //@ func (*GlobalStatusRequestCodec).Decode
 //@   prop C12
 //@   let m := some(message.GlobalStatusRequest)
-//@   requires self != nil && wire_ok(m) && in == wire(m)
+//@   let rest := some(string, "rest")
+//@   requires self != nil && wire_ok(m) && in == wire(m) + rest
 //@   aux wirefields := wirefields(m)
 //@   ensures typed: isT(result, message.GlobalStatusRequest)
 //@   ensures inverse: wire_eq(result.(message.GlobalStatusRequest), m)
@@ -367,7 +394,8 @@ package codec
 //@ func (*GlobalStatusResponseCodec).Decode
 //@   prop C12
 //@   let m := some(message.GlobalStatusResponse)
-//@   requires self != nil && wire_ok(m) && in == wire(m)
+//@   let rest := some(string, "rest")
+//@   requires self != nil && wire_ok(m) && in == wire(m) + rest
 //@   aux wirefields := wirefields(m)
 //@   ensures typed: isT(result, message.GlobalStatusResponse)
 //@   ensures inverse: wire_eq(result.(message.GlobalStatusResponse), m)
@@ -389,10 +417,12 @@ package codec
 //@ func (*GlobalReportRequestCodec).Decode
 //@   prop C12
 //@   let m := some(message.GlobalReportRequest)
-//@   requires self != nil && wire_ok(m) && in == wire(m)
+//@   let rest := some(string, "rest")
+//@   requires self != nil && wire_ok(m) && in == wire(m) + rest
 //@   aux wirefields := wirefields(m)
 //@   ensures typed: isT(result, message.GlobalReportRequest)
 //@   ensures inverse: wire_eq(result.(message.GlobalReportRequest), m)
+//@   at return: assert consumed: content(buf) == rest
 //@   nopanic
 //@ func (*GlobalReportRequestCodec).GetMessageType
 //@   prop C12
@@ -411,7 +441,8 @@ package codec
 //@ func (*GlobalReportResponseCodec).Decode
 //@   prop C12
 //@   let m := some(message.GlobalReportResponse)
-//@   requires self != nil && wire_ok(m) && in == wire(m)
+//@   let rest := some(string, "rest")
+//@   requires self != nil && wire_ok(m) && in == wire(m) + rest
 //@   aux wirefields := wirefields(m)
 //@   ensures typed: isT(result, message.GlobalReportResponse)
 //@   ensures inverse: wire_eq(result.(message.GlobalReportResponse), m)
@@ -433,10 +464,12 @@ package codec
 //@ func (*GlobalLockQueryRequestCodec).Decode
 //@   prop C12
 //@   let m := some(message.GlobalLockQueryRequest)
-//@   requires self != nil && wire_ok(m) && in == wire(m)
+//@   let rest := some(string, "rest")
+//@   requires self != nil && wire_ok(m) && in == wire(m) + rest
 //@   aux wirefields := wirefields(m)
 //@   ensures typed: isT(result, message.GlobalLockQueryRequest)
 //@   ensures inverse: wire_eq(result.(message.GlobalLockQueryRequest), m)
+//@   at return: assert consumed: content(buf) == rest
 //@   nopanic
 //@ func (*GlobalLockQueryRequestCodec).GetMessageType
 //@   prop C12
@@ -455,10 +488,12 @@ package codec
 //@ func (*GlobalLockQueryResponseCodec).Decode
 //@   prop C12
 //@   let m := some(message.GlobalLockQueryResponse)
-//@   requires self != nil && wire_ok(m) && in == wire(m)
+//@   let rest := some(string, "rest")
+//@   requires self != nil && wire_ok(m) && in == wire(m) + rest
 //@   aux wirefields := wirefields(m)
 //@   ensures typed: isT(result, message.GlobalLockQueryResponse)
 //@   ensures inverse: wire_eq(result.(message.GlobalLockQueryResponse), m)
+//@   at return: assert consumed: content(buf) == rest
 //@   nopanic
 //@ func (*GlobalLockQueryResponseCodec).GetMessageType
 //@   prop C12
@@ -477,7 +512,8 @@ package codec
 //@ func (*RegisterTMRequestCodec).Decode
 //@   prop C12
 //@   let m := some(message.RegisterTMRequest)
-//@   requires self != nil && wire_ok(m) && in == wire(m)
+//@   let rest := some(string, "rest")
+//@   requires self != nil && wire_ok(m) && in == wire(m) + rest
 //@   aux wirefields := wirefields(m)
 //@   ensures typed: isT(result, message.RegisterTMRequest)
 //@   ensures inverse: wire_eq(result.(message.RegisterTMRequest), m)
@@ -499,7 +535,8 @@ package codec
 //@ func (*RegisterTMResponseCodec).Decode
 //@   prop C12
 //@   let m := some(message.RegisterTMResponse)
-//@   requires self != nil && wire_ok(m) && in == wire(m)
+//@   let rest := some(string, "rest")
+//@   requires self != nil && wire_ok(m) && in == wire(m) + rest
 //@   aux wirefields := wirefields(m)
 //@   ensures typed: isT(result, message.RegisterTMResponse)
 //@   ensures inverse: wire_eq(result.(message.RegisterTMResponse), m)
@@ -521,10 +558,12 @@ package codec
 //@ func (*RegisterRMRequestCodec).Decode
 //@   prop C12
 //@   let m := some(message.RegisterRMRequest)
-//@   requires self != nil && wire_ok(m) && in == wire(m)
+//@   let rest := some(string, "rest")
+//@   requires self != nil && wire_ok(m) && in == wire(m) + rest
 //@   aux wirefields := wirefields(m)
 //@   ensures typed: isT(result, message.RegisterRMRequest)
 //@   ensures inverse: wire_eq(result.(message.RegisterRMRequest), m)
+//@   at return: assert consumed: content(buf) == rest
 //@   nopanic
 //@ func (*RegisterRMRequestCodec).GetMessageType
 //@   prop C12
@@ -543,7 +582,8 @@ package codec
 //@ func (*RegisterRMResponseCodec).Decode
 //@   prop C12
 //@   let m := some(message.RegisterRMResponse)
-//@   requires self != nil && wire_ok(m) && in == wire(m)
+//@   let rest := some(string, "rest")
+//@   requires self != nil && wire_ok(m) && in == wire(m) + rest
 //@   aux wirefields := wirefields(m)
 //@   ensures typed: isT(result, message.RegisterRMResponse)
 //@   ensures inverse: wire_eq(result.(message.RegisterRMResponse), m)
@@ -567,10 +607,12 @@ package codec
 //@   prop C12
 //@   inline
 //@   let m := some(message.AbstractGlobalEndRequest)
-//@   requires self != nil && wire_ok(m) && in == wire(m)
+//@   let rest := some(string, "rest")
+//@   requires self != nil && wire_ok(m) && in == wire(m) + rest
 //@   aux wirefields := wirefields(m)
 //@   ensures typed: isT(result, message.AbstractGlobalEndRequest)
 //@   ensures inverse: wire_eq(result.(message.AbstractGlobalEndRequest), m)
+//@   at return: assert consumed: content(buf) == rest
 //@   nopanic
 
 //@ func (*CommonGlobalEndResponseCodec).Encode
@@ -586,10 +628,12 @@ package codec
 //@   prop C12
 //@   inline
 //@   let m := some(message.AbstractGlobalEndResponse)
-//@   requires self != nil && wire_ok(m) && in == wire(m)
+//@   let rest := some(string, "rest")
+//@   requires self != nil && wire_ok(m) && in == wire(m) + rest
 //@   aux wirefields := wirefields(m)
 //@   ensures typed: isT(result, message.AbstractGlobalEndResponse)
 //@   ensures inverse: wire_eq(result.(message.AbstractGlobalEndResponse), m)
+//@   at return: assert consumed: content(buf) == rest
 //@   nopanic
 
 //@ func (*AbstractIdentifyRequestCodec).Encode
@@ -605,10 +649,12 @@ package codec
 //@   prop C12
 //@   inline
 //@   let m := some(message.AbstractIdentifyRequest)
-//@   requires self != nil && wire_ok(m) && in == wire(m)
+//@   let rest := some(string, "rest")
+//@   requires self != nil && wire_ok(m) && in == wire(m) + rest
 //@   aux wirefields := wirefields(m)
 //@   ensures typed: isT(result, message.AbstractIdentifyRequest)
 //@   ensures inverse: wire_eq(result.(message.AbstractIdentifyRequest), m)
+//@   at return: assert consumed: content(buf) == rest
 //@   nopanic
 
 //@ func (*AbstractIdentifyResponseCodec).Encode
@@ -624,10 +670,12 @@ package codec
 //@   prop C12
 //@   inline
 //@   let m := some(message.AbstractIdentifyResponse)
-//@   requires self != nil && wire_ok(m) && in == wire(m)
+//@   let rest := some(string, "rest")
+//@   requires self != nil && wire_ok(m) && in == wire(m) + rest
 //@   aux wirefields := wirefields(m)
 //@   ensures typed: isT(result, message.AbstractIdentifyResponse)
 //@   ensures inverse: wire_eq(result.(message.AbstractIdentifyResponse), m)
+//@   at return: assert consumed: content(buf) == rest
 //@   nopanic
 
 // The codec manager: a two-level registry keyed by codec type and message type code. The body
@@ -640,6 +688,12 @@ package codec
 //@   ensures result == ufs("codec.enc", self, in)
 //@ iface (codec.Codec).Decode
 //@   ensures result == ufval("codec.dec", self, in)
+
+// GetCodecManager: lazily initialised singleton behind sync.Once. Trusted (body not verified): the
+// contract only says that the singleton exists and is the package variable.
+//@ func GetCodecManager
+//@   trusted
+//@   ensures result != nil && result == codecManager
 
 //@ func (*CodecManager).GetCodec
 //@   prop C12
@@ -669,8 +723,8 @@ package codec
 
 //@ func (*CodecManager).Decode
 //@   prop C12
-//@   requires c != nil && len(in) >= 2
-//@   let tc := sint16(un16(in[0:2]))
+//@   requires c != nil && (len(in) >= 2 || c.codecMap[codecType] == nil || c.codecMap[codecType][0] == nil)
+//@   let tc := ite(len(in) >= 2, sint16(un16(in[0:2])), 0)
 //@   let inner := c.codecMap[codecType]
 //@   let cd := c.codecMap[codecType][tc]
 //@   ensures dispatch: inner != nil && cd != nil ==> result == ufval("codec.dec", cd, in[2:])
